@@ -74,7 +74,7 @@ class RestartFamily:
         base = opts.get('base') or rng.choice(['flow', 'flow', 'gen', 'data', 'error', 'sub'])
         store = opts.get('store', 'mem')
         fam = self.BASES[base]
-        sub_opts = {'flow': {'sub': 'plain', 'variants': 1, 'scheds': ['cur-fifo']}, 'gen': {'sub': rng.choice(['gen', 'gen', 'hooks'])}, 'data': {}, 'error': {'evict': 0.0}, 'sub': {'evict': 0.0, 'orphan': 0.0}}[base]
+        sub_opts = {'flow': {'sub': 'plain', 'variants': 1, 'scheds': ['cur-fifo']}, 'gen': {'sub': rng.choice(['gen', 'gen', 'hooks'])}, 'data': {'envheavy': 0.4}, 'error': {'evict': 0.0}, 'sub': {'evict': 0.0, 'orphan': 0.0}}[base]
         c = fam.gen(rng, idx, sub_opts)
         sc = c['scenarios'][0]
         sc['runtime'] = dict(DET)
